@@ -4,23 +4,37 @@ import (
 	"fmt"
 	"os"
 
+	"verif/core"
 	"verif/engine"
+	_ "verif/fsprops"
 	"verif/ops"
 )
 
 func main() {
 	if len(os.Args) < 2 {
-		fmt.Fprintln(os.Stderr, "usage: verifsim <command> ...")
+		fmt.Fprintln(os.Stderr, "usage: verifsim check <id> <quick|thorough> | replay <file> | survey [-v|op]")
 		os.Exit(2)
 	}
-	defer engine.Cleanup()
+	code := 0
 	switch os.Args[1] {
 	case "survey":
 		survey()
+	case "check":
+		if len(os.Args) < 4 {
+			fmt.Fprintln(os.Stderr, "usage: verifsim check <id> <tier>")
+			os.Exit(2)
+		}
+		code = core.CheckMain(os.Args[2], os.Args[3])
+	case "worker":
+		code = core.WorkerMain(os.Args[2:])
+	case "replay":
+		code = core.ReplayMain(os.Args[2])
 	default:
 		fmt.Fprintln(os.Stderr, "unknown command", os.Args[1])
-		os.Exit(2)
+		code = 2
 	}
+	engine.Cleanup()
+	os.Exit(code)
 }
 
 func survey() {
@@ -46,5 +60,74 @@ func survey() {
 				}
 			}
 		}
+	}
+}
+
+func init() {
+	if len(os.Args) > 1 && os.Args[1] == "unit" {
+		// verifsim unit <id> <tier> <op> <rel>: run one unit in-process with timing (debug aid)
+		p := core.Get(os.Args[2])
+		units, _ := p.Units(os.Args[3], core.Seed())
+		for _, u := range units {
+			s := string(u)
+			if len(os.Args) > 4 && !containsAll(s, os.Args[4:]) {
+				continue
+			}
+			t0 := nowMs()
+			r := p.RunUnit(u, os.Args[3], core.Seed())
+			fmt.Printf("%6dms evals=%-5d viol=%-3d nontrivial=%-4d trouble=%q %s\n", nowMs()-t0, r.Evaluations, len(r.Violations), len(r.Nontrivial), r.Trouble, s)
+		}
+		engine.Cleanup()
+		os.Exit(0)
+	}
+}
+
+func init() {
+	if len(os.Args) > 1 && os.Args[1] == "unitv" {
+		p := core.Get(os.Args[2])
+		units, _ := p.Units(os.Args[3], core.Seed())
+		for _, u := range units {
+			s := string(u)
+			if len(os.Args) > 4 && !containsAll(s, os.Args[4:]) {
+				continue
+			}
+			r := p.RunUnit(u, os.Args[3], core.Seed())
+			for _, v := range r.Violations {
+				fmt.Printf("%s\n   %s\n", v.Signature, v.Detail)
+			}
+		}
+		engine.Cleanup()
+		os.Exit(0)
+	}
+}
+
+func init() {
+	if len(os.Args) > 1 && os.Args[1] == "sigs" {
+		// verifsim sigs <id> <tier> [filters]: distinct violation signatures with counts (debug aid)
+		p := core.Get(os.Args[2])
+		units, _ := p.Units(os.Args[3], core.Seed())
+		counts := map[string]int{}
+		first := map[string]string{}
+		for _, u := range units {
+			s := string(u)
+			if len(os.Args) > 4 && !containsAll(s, os.Args[4:]) {
+				continue
+			}
+			r := p.RunUnit(u, os.Args[3], core.Seed())
+			if r.Trouble != "" {
+				fmt.Println("TROUBLE", r.Trouble)
+			}
+			for _, v := range r.Violations {
+				counts[v.Signature]++
+				if first[v.Signature] == "" {
+					first[v.Signature] = v.Detail
+				}
+			}
+		}
+		for k, c := range counts {
+			fmt.Printf("%4d %s\n", c, k)
+		}
+		engine.Cleanup()
+		os.Exit(0)
 	}
 }
